@@ -442,6 +442,9 @@ class Scheduler:
             os.close(k["rfd"])
             k["w"].close()
 
+        def busy(p):
+            return p in kids and not kids[p]["idle"]
+
         def pending(p):
             k = kids[p]
             if k["pending"] is None:
@@ -467,10 +470,11 @@ class Scheduler:
             op = msg["op"]
             drift = bool(expect) and {"EnsureDir": "Mkdir"}.get(expect, expect) != op
             if op == "Return":
+                # the OS process lives on (whatever the call left in the interpreter stays there) and waits for its next call
                 k["w"].write("{}\n")
                 k["w"].flush()
                 k["pending"] = None
-                reap(p)
+                k["idle"] = True
                 log("Return", p, res=msg["res"], exc=msg.get("exc", ""), drift=drift)
                 return False
             if partial is not None and op == "Write":
@@ -514,8 +518,14 @@ class Scheduler:
                 kind, p = st[0], st[1]
                 if kind == "call":
                     e = st[2]
-                    while p in kids:   # (a schedule that is out of step with the code: the earlier call of this process finishes first)
+                    while busy(p):   # (a schedule that is out of step with the code: the earlier call of this process finishes first)
                         perform(p, "")
+                    if p in kids:   # the process is alive and idle: its next call runs in the same interpreter
+                        kids[p]["idle"] = False
+                        kids[p]["w"].write(json.dumps({"call": e}) + "\n")
+                        kids[p]["w"].flush()
+                        log("Call", p, e=e)
+                        continue
                     c2p_r, c2p_w = os.pipe()
                     p2c_r, p2c_w = os.pipe()
                     sys.stdout.flush()
@@ -528,17 +538,22 @@ class Scheduler:
                             from ampform.sympy import perform_cached_doit
 
                             cio.install()
-                            try:
-                                out = perform_cached_doit(self.exprs[e], d)
-                                res, exc = self.classify_value(out), ""
-                            except BaseException as ex:  # noqa: BLE001
-                                res, exc = "RAISED", type(ex).__name__
-                            cio.announce("Return", res=res, exc=exc)
+                            while True:
+                                try:
+                                    out = perform_cached_doit(self.exprs[e], d)
+                                    res, exc = self.classify_value(out), ""
+                                except BaseException as ex:  # noqa: BLE001
+                                    res, exc = "RAISED", type(ex).__name__
+                                cio.announce("Return", res=res, exc=exc)
+                                line = cio.r.readline()   # the next call of this process, or end of the scenario
+                                if not line:
+                                    break
+                                e = json.loads(line)["call"]
                         finally:
                             os._exit(0)
                     os.close(c2p_w)
                     os.close(p2c_r)
-                    kids[p] = {"pid": pid, "rfd": c2p_r, "buf": b"", "w": os.fdopen(p2c_w, "w"), "pending": None}
+                    kids[p] = {"pid": pid, "rfd": c2p_r, "buf": b"", "w": os.fdopen(p2c_w, "w"), "pending": None, "idle": False}
                     log("Call", p, e=e)
                 elif kind == "plant":
                     # pre-existing content of the key file of expression st[1]
@@ -561,34 +576,34 @@ class Scheduler:
                         complete, exc = 0, type(ex).__name__
                     log("Plant", p, name=self.keyname[fname], what=what, complete=complete, exc=exc)
                 elif kind == "step":
-                    if p in kids:
+                    if busy(p):
                         perform(p, st[2] if len(st) > 2 else "")
                         # one tolerant mkdir = os.mkdir and, when the directory was there, a look at it (is_dir): one model step
-                        while len(st) > 2 and st[2] == "EnsureDir" and p in kids and (pending(p) or {}).get("op") == "DirStat":
+                        while len(st) > 2 and st[2] == "EnsureDir" and busy(p) and (pending(p) or {}).get("op") == "DirStat":
                             perform(p, "")
                 elif kind == "crash":
-                    if p in kids:
+                    if busy(p):
                         pending(p)
                         reap(p)
                         orphan(p)
                         log("Crash", p)
                 elif kind == "partial":
-                    if p in kids:
+                    if busy(p):
                         # run p up to its first Write, then write only n bytes and die
-                        while p in kids and (pending(p) or {}).get("op") not in ("Write", "Return", None):
+                        while busy(p) and (pending(p) or {}).get("op") not in ("Write", "Return", None):
                             perform(p, "")
-                        if p in kids:
+                        if busy(p):
                             if pending(p) and pending(p)["op"] == "Write":
                                 perform(p, "", partial=int(st[2]))
                             else:
                                 perform(p, "")
                 elif kind == "run":
-                    while p in kids:
+                    while busy(p):
                         perform(p, "")
                 else:
                     raise ValueError(kind)
             for p in list(kids):  # leftovers run to completion
-                while p in kids:
+                while busy(p):
                     perform(p, "")
         finally:
             for p in list(kids):
